@@ -818,5 +818,19 @@ def coverage_extra(cases, answers):
                     vs["vars_with_reference"] += 1
             elif t[0] == "dbl.rt":
                 dbl["dbl_rt_total"] += 1
-    st.update(kv); st.update(vs); st.update(dbl)
+    ds = {"dist_total": 0, "dist_build_refused": 0, "dist_write_raised": 0, "dist_read_back": 0, "dist_read_raised": 0}
+    for c, a in zip(cases, answers):
+        ops = [l for l in c if l.strip() and not l.startswith(("case", "#", "="))]
+        for l, r in zip(ops, a):
+            if l.startswith("dist.rt"):
+                ds["dist_total"] += 1
+                if r.startswith("build:"):
+                    ds["dist_build_refused"] += 1
+                elif r.startswith("write:"):
+                    ds["dist_write_raised"] += 1
+                elif r.rstrip().endswith("exc:bpp"):
+                    ds["dist_read_raised"] += 1
+                else:
+                    ds["dist_read_back"] += 1
+    st.update(kv); st.update(vs); st.update(dbl); st.update(ds)
     return {"distribution": st}
